@@ -87,3 +87,67 @@ func (in *Interp) syncEvent(kind, op string, m Value) {
 		in.X.onSync(in, kind, op, ptrKey(m))
 	}
 }
+
+// sync.Map in a single-threaded symbolic run: an association list per map object; key comparison is Go's ==
+// on interface values (branching when it is symbolic).
+type syncMapEntry struct{ K, V Value }
+
+// a write into a sync.Map counts as a write to shared (package-level) state for the C17 purity oracle
+func (in *Interp) noteGlobalWrite(why string) {
+	if on, _ := in.Ghost["globalwrites.on"].(bool); on && in.lenient == 0 {
+		in.Ghost["globalwrites"] = intGhost(in, "globalwrites") + 1
+		in.event("shared state written: %s", why)
+	}
+}
+
+func (in *Interp) syncMapFind(mk string, key Value) int {
+	es, _ := in.Ghost[mk].([]syncMapEntry)
+	for i, e := range es {
+		if in.Branch(in.valEq(e.K, key)) {
+			return i
+		}
+	}
+	return -1
+}
+
+func init() {
+	models["(*sync.Map).Load"] = func(in *Interp, fn *ssa.Function, a []Value) Value {
+		mk := "syncmap:" + ptrKey(a[0])
+		if i := in.syncMapFind(mk, a[1]); i >= 0 {
+			return Tuple{in.Ghost[mk].([]syncMapEntry)[i].V, smt.True}
+		}
+		return Tuple{&Iface{}, smt.False}
+	}
+	models["(*sync.Map).Store"] = func(in *Interp, fn *ssa.Function, a []Value) Value {
+		mk := "syncmap:" + ptrKey(a[0])
+		es, _ := in.Ghost[mk].([]syncMapEntry)
+		if i := in.syncMapFind(mk, a[1]); i >= 0 {
+			ne := append([]syncMapEntry{}, es...)
+			ne[i].V = a[2]
+			in.Ghost[mk] = ne
+			return nil
+		}
+		in.Ghost[mk] = append(append([]syncMapEntry{}, es...), syncMapEntry{a[1], a[2]})
+		in.noteGlobalWrite("sync.Map.Store")
+		return nil
+	}
+	models["(*sync.Map).LoadOrStore"] = func(in *Interp, fn *ssa.Function, a []Value) Value {
+		mk := "syncmap:" + ptrKey(a[0])
+		es, _ := in.Ghost[mk].([]syncMapEntry)
+		if i := in.syncMapFind(mk, a[1]); i >= 0 {
+			return Tuple{es[i].V, smt.True}
+		}
+		in.Ghost[mk] = append(append([]syncMapEntry{}, es...), syncMapEntry{a[1], a[2]})
+		in.noteGlobalWrite("sync.Map.LoadOrStore")
+		return Tuple{a[2], smt.False}
+	}
+	models["(*sync.Map).Delete"] = func(in *Interp, fn *ssa.Function, a []Value) Value {
+		mk := "syncmap:" + ptrKey(a[0])
+		es, _ := in.Ghost[mk].([]syncMapEntry)
+		if i := in.syncMapFind(mk, a[1]); i >= 0 {
+			ne := append([]syncMapEntry{}, es[:i]...)
+			in.Ghost[mk] = append(ne, es[i+1:]...)
+		}
+		return nil
+	}
+}
